@@ -26,9 +26,9 @@ CLAIMS = {
    note=TB + " lalrpop 0.19.8 (vendored front-end, same version as Cargo.lock): generated tables implement the grammar, @L/@R are token boundaries." + " Numeric line/column computation is the line-col crate's.",
    design="DESIGN.md section 4, C04"),
  "C14": dict(
-   technique="necessary conditions only: path rules on the recovery actions, flatten-only body construction, lookahead-set rule on the LR automaton",
-   text="Static, necessary conditions: the three member-level recovery alternatives exist, push an Error and yield None; bodies keep all well-formed siblings in order (flatten only); in every LR state where `error` can be shifted inside a body, the recovery production is reduced on a lookahead set containing FIRST(member) and the closing brace, so parsing can continue with the next member. That lalrpop's token-dropping recovery resynchronises at the terminator for every garbage string, and that all syntax Errors lie inside the malformed member, is NOT decided.",
-   note=TB + " lalrpop 0.19.8 (vendored front-end, same version as Cargo.lock): generated tables implement the grammar, @L/@R are token boundaries." + " The dynamics of lalrpop_util's recovery are trusted, not analysed.",
+   technique="path rules on the recovery actions, flatten-only body construction, lookahead-set rule on the LR automaton, and bounded exhaustive exploration of a parser model (exported LR automaton + transcription of lalrpop_util's parse / error-recovery loop) over all malformed members up to a token bound",
+   text="Static / model exploration: (R1-R4) the member-level recovery alternatives exist, push an Error and yield None; bodies keep all well-formed siblings in order (flatten only); wherever `error` can be shifted inside a body the recovery production is reduced on FIRST(member) and the closing brace; the token vocabulary is the reference one. (R5) the core claim is explored on a model of the parser, not on the parser: for interface, parcelable and enum bodies, every token string of up to 2 (quick; 3 for enums and in the thorough tier) vocabulary tokens without terminator / brace that is not itself a member is placed between optional well-formed siblings (27 000 - 900 000 documents); a tree must result, every sibling must be reduced with its own extent and in order, and every offending token must lie inside the malformed member. One genuine deviation found this way is a recorded known finding (enum element with an unclosed annotation parenthesis).",
+   note=TB + " R5 trusts rules/lrsim.py (a transcription of lalrpop_util 0.19.8 state_machine.rs, cross-checked by hand against the real parser on a few inputs) and TB-2 (generated tables = exported automaton); longer malformed members are not covered.",
    design="DESIGN.md section 4, C14"),
  "C18": dict(
    technique="byte/char dimension typing on MIR; grammar-action wiring of `doc`; extraction of the backward scanner as a finite transducer and of the normaliser as a regex pipeline by abstract interpretation, each simulated on a bounded structured family against a reference written from the statement",
